@@ -199,9 +199,16 @@ def judgeBufStep (mode : Nat) (j : JB) (prev next : Step) (ln txt : Bytes) : JB 
         let (_, c, _) := splitCmd (byt sg)
         let c := (str c).replace "!" ""
         c == "w" || c == "wq" || c == "x" || c == "xa")
-      if lineHasWrite && msg.contains "[w]" && fileOf next b.path != fileOf prev b.path then
-        let wr := (fileOf next b.path).getD b.text
-        let j := setGhost j { g with disk := some wr, savedAt := some b.histU }
+      -- what the file held just before the command (harness directives applied)
+      let beforeOwn := match j.fs.over.find? (·.1 == b.path) with | some o => o.2 | none => fileOf prev b.path
+      let ownWrite := segs.any (fun sg =>
+        let (_, c, a) := splitCmd (byt sg)
+        let c0 := (str c).replace "!" ""
+        (c0 == "w" || c0 == "wq" || c0 == "x" || c0 == "xa") && (a.isEmpty || a == b.path))
+      if lineHasWrite && msg.contains "[w]" && (fileOf next b.path != beforeOwn || ownWrite) then
+        let j := if fileOf next b.path != beforeOwn then
+            setGhost j { g with disk := some ((fileOf next b.path).getD b.text), savedAt := some b.histU }
+          else j
         { j with fs := { j.fs with touched := j.fs.touched.filter (· != b.path) } }
       else
       if isWrite && (msg.contains "[w]") then
@@ -262,7 +269,14 @@ def judge04Step (j : J04) (prev next : Step) (ln : Bytes) : J04 :=
   let mentionsLoad := ((str ln).splitOn "|").any (fun sg =>
     let c := (cmdName (byt sg)).replace "!" ""
     c == "e" || c == "ew")
+  -- a write in the middle of a command line ends an undo step there (lbuf_saved bumps the sequence, which
+  -- is what keeps the dirty flag sound): such lines, and lines with u / redo / e inside, are not judged
+  let mentionsWrite := ((str ln).splitOn "|").any (fun sg =>
+    let c := (cmdName (byt sg)).replace "!" ""
+    c == "w" || c == "wq" || c == "x" || c == "xa")
+  let opaque_ := !single && (mentionsUndo || mentionsLoad || mentionsWrite)
   next.bufs.foldl (fun j b =>
+    if opaque_ then setUz j { (uzOf j b.id) with ok := false } else
     match bufById prev b.id with
     | none => setUz j { id := b.id, ok := single }      -- created by this line; edits after a mid-line load are not seen
     | some a =>
